@@ -13,7 +13,7 @@ import (
 func init() { register("C03", true, runC03) }
 
 func runC03(c *Check) {
-	c.Explanation = "Decides three necessary conditions of C03 for every list of input profiles: each identity key (function, location incl. every inlined line, mapping, sample) reads every attribute that the corresponding constructor copies into the merged object, apart from the documented exceptions (ids, normalised mapping addresses, symbol flags, summed values) (R1); keys assembled by indexed stores use disjoint slots — the index expressions a·i+b of one loop use one stride a with distinct offsets 0 <= b < a — so no attribute is overwritten by another (R2); the result never aliases an input: no pointer, slice or map read out of an input profile is stored into the merged profile or copied element-wise into it (R3), and no store in the Merge call tree goes through an input object (R4); the per-input id translation tables are re-created inside the loop over inputs before any entity of that input is mapped (R5). Also: per-input id tables are re-created in the loop (R5), every successful return follows the zero-sample scan (R6), the merged time ignores inputs without one (R7), the merged sample list only grows by append so no entity is left behind by a later removal (R8), Mapping.key uses the file name only when the build id is empty (R9). Also: a by-value entry recorded in a memo table is the finished entry that is handed out (R10). Round-I additions: the set that de-duplicates the merged comment list lives across the loop over the inputs; Merge pins a mapping ahead of the samples only while the result has none. Not decided: value sums, order independence, idempotence of Compact, header arithmetic."
+	c.Explanation = "Decides three necessary conditions of C03 for every list of input profiles: each identity key (function, location incl. every inlined line, mapping, sample) reads every attribute that the corresponding constructor copies into the merged object, apart from the documented exceptions (ids, normalised mapping addresses, symbol flags, summed values) (R1); keys assembled by indexed stores use disjoint slots — the index expressions a·i+b of one loop use one stride a with distinct offsets 0 <= b < a — so no attribute is overwritten by another (R2); the result never aliases an input: no pointer, slice or map read out of an input profile is stored into the merged profile or copied element-wise into it (R3), and no store in the Merge call tree goes through an input object (R4); the per-input id translation tables are re-created inside the loop over inputs before any entity of that input is mapped (R5). Also: per-input id tables are re-created in the loop (R5), every successful return follows the zero-sample scan (R6), the merged time ignores inputs without one (R7), the merged sample list only grows by append so no entity is left behind by a later removal (R8), Mapping.key uses the file name only when the build id is empty (R9). Also: a by-value entry recorded in a memo table is the finished entry that is handed out (R10). Round-I additions: the set that de-duplicates the merged comment list lives across the loop over the inputs; Merge pins a mapping ahead of the samples only while the result has none. Round L: the sample key is self-delimiting — every variable-length list inside an entry and every section but the last has its length written ahead of it or a constant delimiter after it (R13). Not decided: value sums, order independence, idempotence of Compact, header arithmetic."
 	p := c.P
 	tree := map[string]*ssa.Function{}
 	for _, n := range []string{"Merge", "combineHeaders", "(*profileMerger).mapSample", "(*profileMerger).sampleKey", "(*profileMerger).mapLocation", "(*profileMerger).mapMapping", "(*profileMerger).mapFunction", "(*Location).key", "(*Mapping).key", "(*Function).key"} {
@@ -79,6 +79,7 @@ func runC03(c *Check) {
 		c.slotDisjoint(tree[n])
 		c.numericTokensSeparated(tree[n])
 	}
+	c.c03ListsLengthPrefixed(tree["(*profileMerger).sampleKey"], tree)
 
 	// ---- R3 / R4 aliasing and input modification
 	isSourceParam := func(pr *ssa.Parameter) bool {
